@@ -23,6 +23,7 @@ DOC = {
         "calculate_penalty and TeeContext; the sys.stdout ownership rule scans every module."
     ),
     "rules": {
+        "C15-R7": "the optimisation group writes result variables (singular vectors, weights, finalised data) only into the copies made in create_result_data, never into the datasets of scheme.data (shared with C10-R3)",
         "C15-R1": "least_squares is called inside a try whose handler catches Exception; the handler re-raises the caught object only under the raise flag and otherwise warns and stores the error text as termination reason",
         "C15-R2": "that try is inside `with <TeeContext>`; TeeContext.__exit__ restores sys.stdout on every path, returns falsy and cannot raise; sys.stdout is assigned nowhere else in the package",
         "C15-R3": "every attribute load on the optimiser result in create_result is guarded by the success test; the InitialParameterError test dominates every evaluation; the fallback to the history precedes the re-evaluation on the failure path",
@@ -449,6 +450,14 @@ def r6(ctx) -> None:
     from glint.rules import c11
 
     c11.history_pair(ctx, "C15-R6")
+    c11.r1(ctx, rule="C15-R6")
+
+
+def r7(ctx) -> None:
+    """The caller's scheme is untouched: datasets (shared with C10-R3)."""
+    from glint.rules import c10
+
+    c10.datasets_untouched(ctx, "C15-R7")
 
 
 def r1_options(ctx) -> None:
@@ -460,4 +469,4 @@ def check(ctx) -> None:
         g(ctx)
 
 
-check.groups = [r1_r2, r1_escape, r2_tee, r3, r4, r5, r5_records, r6, r1_options]
+check.groups = [r1_r2, r1_escape, r2_tee, r3, r4, r5, r5_records, r6, r1_options, r7]
